@@ -6,6 +6,7 @@ import (
 	"fmt"
 	"os"
 	"path/filepath"
+	"runtime"
 	"testing"
 	"testing/synctest"
 	"time"
@@ -194,6 +195,11 @@ func c14Probe(t *testing.T, rep *kit.Report) {
 				t.Fatal(err)
 			}
 			fmt.Println("shard create+write", sid, c14Real()-r1, sg.StartTime, sg.EndTime)
+		}
+		if it == 0 {
+			buf := make([]byte, 1<<22)
+			n := runtime.Stack(buf, true)
+			_ = os.WriteFile("/tmp/c14probe/stacks.txt", buf[:n], 0o644)
 		}
 		r2 := c14Real()
 		handle()
